@@ -11,7 +11,7 @@
 (*             followed by the definitions of the listed symbols and by probe references from every level *)
 (*             of the nest and from the global level (plain names; for GLOBAL also the composed names).   *)
 (*             Variants: same-named symbols further out (PL.outers); the probes the manual resolves all   *)
-(*             in one text + one text per probe the manual calls undefined (PL.undef).                    *)
+(*             in one text + one text per name with the innermost probe the manual calls undefined.       *)
 (* Printed per program: the completed text, what the manual demands (Expect) and what the machine does    *)
 (* (errors, words of the last pass, words of one further pass).                                          *)
 EXTENDS Symbols, Json
@@ -117,9 +117,9 @@ Witness ==
 \* the parameter sets of the two tiers.  quals[n] = destinations an argument of a list of n arguments can have:
 \* the forms CodePPSyms / IdentifySection distinguish are none, PARENTn and a section name.
 PL == IF Mode = "pplistq"
-      THEN [depths |-> {3}, maxArgs |-> 2, outers |-> {"none", "top"}, undef |-> "nearest",
+      THEN [depths |-> {3}, maxArgs |-> 2, outers |-> {"none", "top"}, undef |-> {"none"},
             quals |-> [n \in 1..2 |-> {NoQ, QParent(1), QParent(2), QName("aa")}]]
-      ELSE [depths |-> {2, 3, 4}, maxArgs |-> 3, outers |-> {"none", "top", "glob"}, undef |-> "all",
+      ELSE [depths |-> {3, 4}, maxArgs |-> 3, outers |-> {"none", "top", "glob"}, undef |-> {"none", "top"},
             quals |-> [n \in 1..3 |-> IF n = 3 THEN {NoQ, QParent(1), QName("aa")}
                                       ELSE {NoQ, QParent(0), QParent(1), QParent(2), QParent(3), QName("aa"), QName("bb")}]]
 PLSecs == <<"aa", "bb", "cc", "aa">>            \* the nest; the innermost of depth 4 repeats the name of the outermost
@@ -155,13 +155,11 @@ PLTexts(d, L, outer) ==
       E0 == Entries(A0)
       R == {i \in 1..Len(P0) : P0[i].k = "REF"}
       F == {i \in R : RefAnswer(A0, E0, i).found}
-      \* probes the manual calls undefined: all of them, or ("nearest") per name the innermost one - a lookup from there
-      \* sees every level further out - and composed names only if the manual lets that name exist at all
-      \* (and only in the texts without same-named symbols further out)
-      U == {i \in R \ F : \/ PL.undef = "all"
-                           \/ /\ outer = "none"
-                              /\ ~\E j \in R \ F : j < i /\ P0[j].nm = P0[i].nm
-                              /\ Len(P0[i].nm.p) = 1 \/ \E j \in F : P0[j].nm = P0[i].nm}
+      \* probes the manual calls undefined: per name the innermost one (a lookup from there sees every level further
+      \* out); composed names only if the manual lets that name exist at all; only for the placements PL.undef
+      U == {i \in R \ F : /\ outer \in PL.undef
+                          /\ ~\E j \in R \ F : j < i /\ P0[j].nm = P0[i].nm
+                          /\ (Len(P0[i].nm.p) = 1 \/ \E j \in F : P0[j].nm = P0[i].nm)}
       base == (1..Len(P0)) \ R
   IN {PickFrom(P0, base \cup F, 1)} \cup {PickFrom(P0, base \cup F \cup {u}, 1) : u \in U}
 
